@@ -1503,17 +1503,73 @@ def privatize_inplace(stmts: list[ast.stmt], fn: ast.FunctionDef) -> list[ast.st
             return True
         return isinstance(call.func, ast.Attribute) and call.func.attr in _NONRETAINING_METHODS
 
+    # position of every node: index of the top-level statement that contains it
+    # (statements numbered in source order, nested ones included: inside one `if` arm an update precedes a later store)
+    top_of: dict[int, int] = {}
+    counter_ = [0]
+
+    def _number(stmts_):
+        for st_ in stmts_:
+            counter_[0] += 1
+            me = counter_[0]
+            for n in ast.walk(st_):
+                top_of.setdefault(id(n), me) if not isinstance(n, ast.stmt) or n is st_ else None
+            for fld in ("body", "orelse", "finalbody"):
+                b_ = getattr(st_, fld, None)
+                if isinstance(b_, list) and b_ and isinstance(b_[0], ast.stmt):
+                    _number(b_)
+            for h_ in getattr(st_, "handlers", []) or []:
+                _number(h_.body)
+
+    # number innermost statements last so that their own nodes get their own number
+    def _assign_numbers(stmts_):
+        for st_ in stmts_:
+            counter_[0] += 1
+            me = counter_[0]
+            nested = []
+            for fld in ("body", "orelse", "finalbody"):
+                b_ = getattr(st_, fld, None)
+                if isinstance(b_, list) and b_ and isinstance(b_[0], ast.stmt):
+                    nested.append(b_)
+            for h_ in getattr(st_, "handlers", []) or []:
+                nested.append(h_.body)
+            inner_ids = {id(x) for b_ in nested for s2 in b_ for x in ast.walk(s2)}
+            for n in ast.walk(st_):
+                if id(n) not in inner_ids:
+                    top_of[id(n)] = me
+            for b_ in nested:
+                _assign_numbers(b_)
+
+    _assign_numbers(mod.body)
+    first_escape: dict[str, int] = {}
     for n in ast.walk(mod):
         if isinstance(n, ast.Name) and isinstance(n.ctx, ast.Load) and n.id in cands and escapes(n):
-            cands.discard(n.id)
-    if not cands:
-        return stmts
+            first_escape[n.id] = min(first_escape.get(n.id, 10**9), top_of.get(id(n), -1))
+    # an object that gets a second holder LATER (`self.strain = buf` after the updates) was still private while it was
+    # updated: in-place operations in top-level statements strictly before the first escape are rewritten, the others are not
+    limit: dict[str, int] = {x: first_escape.get(x, 10**9) for x in cands}
     ops = {ast.Add, ast.Sub, ast.Mult, ast.Div, ast.Pow, ast.FloorDiv, ast.Mod, ast.MatMult}
+
+    def private_at(name: str, node) -> bool:
+        if name not in cands:
+            return False
+        pos = top_of.get(id(node), 10**9)
+        if pos >= limit[name]:
+            return False
+        # inside a loop an earlier iteration's escape could precede this operation: only straight-line positions count when
+        # the name escapes at all
+        if name in first_escape:
+            p_ = parents.get(id(node))
+            while p_ is not None and p_ is not mod:
+                if isinstance(p_, (ast.For, ast.While, ast.AsyncFor)):
+                    return False
+                p_ = parents.get(id(p_))
+        return True
 
     class T(ast.NodeTransformer):
         def visit_AugAssign(self, node):
             self.generic_visit(node)
-            if isinstance(node.target, ast.Name) and node.target.id in cands and type(node.op) in ops:
+            if isinstance(node.target, ast.Name) and private_at(node.target.id, node) and type(node.op) in ops:
                 new = ast.Assign(targets=[ast.Name(id=node.target.id, ctx=ast.Store())],
                                  value=ast.BinOp(left=ast.Name(id=node.target.id, ctx=ast.Load()), op=node.op, right=node.value), lineno=node.lineno, col_offset=0)
                 return ast.fix_missing_locations(ast.copy_location(new, node))
@@ -1524,11 +1580,13 @@ def privatize_inplace(stmts: list[ast.stmt], fn: ast.FunctionDef) -> list[ast.st
             c = node.value
             if isinstance(c, ast.Call):
                 outs = [k for k in c.keywords if k.arg == "out"]
-                if len(outs) == 1 and isinstance(outs[0].value, ast.Name) and outs[0].value.id in cands and norm(c.func).split(".")[0] in ("np", "numpy"):
+                # (with `where=` the entries that are not selected KEEP what the out array held: that call is not a rebinding)
+                if len(outs) == 1 and isinstance(outs[0].value, ast.Name) and private_at(outs[0].value.id, node) and norm(c.func).split(".")[0] in ("np", "numpy") \
+                        and not any(k.arg == "where" for k in c.keywords):
                     call2 = ast.Call(func=c.func, args=c.args, keywords=[k for k in c.keywords if k.arg != "out"])
                     new = ast.Assign(targets=[ast.Name(id=outs[0].value.id, ctx=ast.Store())], value=call2, lineno=node.lineno, col_offset=0)
                     return ast.fix_missing_locations(ast.copy_location(new, node))
-                if isinstance(c.func, ast.Attribute) and c.func.attr == "fill" and isinstance(c.func.value, ast.Name) and c.func.value.id in cands and len(c.args) == 1:
+                if isinstance(c.func, ast.Attribute) and c.func.attr == "fill" and isinstance(c.func.value, ast.Name) and private_at(c.func.value.id, node) and len(c.args) == 1:
                     call2 = ast.Call(func=ast.Attribute(value=ast.Name(id="np", ctx=ast.Load()), attr="full_like", ctx=ast.Load()), args=[ast.Name(id=c.func.value.id, ctx=ast.Load()), c.args[0]], keywords=[])
                     new = ast.Assign(targets=[ast.Name(id=c.func.value.id, ctx=ast.Store())], value=call2, lineno=node.lineno, col_offset=0)
                     return ast.fix_missing_locations(ast.copy_location(new, node))
@@ -1539,7 +1597,8 @@ def privatize_inplace(stmts: list[ast.stmt], fn: ast.FunctionDef) -> list[ast.st
             # `y = np.f(a, out=x)` with y is x (same name): the out array holds the result
             if len(node.targets) == 1 and isinstance(node.targets[0], ast.Name) and isinstance(node.value, ast.Call):
                 outs = [k for k in node.value.keywords if k.arg == "out"]
-                if len(outs) == 1 and isinstance(outs[0].value, ast.Name) and outs[0].value.id == node.targets[0].id and node.targets[0].id in cands:
+                if len(outs) == 1 and isinstance(outs[0].value, ast.Name) and outs[0].value.id == node.targets[0].id and private_at(node.targets[0].id, node) \
+                        and not any(k.arg == "where" for k in node.value.keywords):
                     node.value = ast.Call(func=node.value.func, args=node.value.args, keywords=[k for k in node.value.keywords if k.arg != "out"])
             return node
 
